@@ -299,8 +299,10 @@ def run(ctx):
                             if ad.coq_op(r['op'], r['aux'], r['ref']) is not None]
                     hi, si = flat[pc[1][0]]
                     r = hists[hi][si]
-                    broken_corr.append((name, '%d steps disagree; first: history %d step %d op=%r impl code=%s agree=%s state=%r'
-                                        % (len(pc[1]), hi, si, r['op'], r['code'], r['agree'], r['state'])))
+                    broken_corr.append((name, '%d steps disagree; first: history %d step %d op=%r impl code=%s agree=%s state=%r; '
+                                        'history so far=%r'
+                                        % (len(pc[1]), hi, si, r['op'], r['code'], r['agree'], r['state'],
+                                           [x['op'] for x in hists[hi][:si]])))
         ctx.cov.update(traces_validated_against_impl=n_ok, correspondence_steps=n_steps,
                        correspondence_disagreements=n_steps - n_ok, correspondence_broken=[list(b) for b in broken_corr])
 
